@@ -30,6 +30,7 @@ func oracleC11(v *View, vd *Verdict) {
 		afterWake := false // the wake-up PINGRESP has been sent; until the next PINGREQ/CONNECT/DISCONNECT nothing may be sent
 		norder := 0
 		died := false
+		connecting := false // CONNECT consumed while asleep/awake, CONNACK not yet sent
 		for _, e := range sv.Evs {
 			if e.Kind == EvEnd || e.Kind == EvShutdown || e.Kind == EvBFin || e.Kind == EvBClose || e.Kind == EvMqClose {
 				died = true
@@ -51,6 +52,11 @@ func oracleC11(v *View, vd *Verdict) {
 				}
 				p := e.SN
 				switch {
+				case connecting:
+					// the client asked to become active with CONNECT: the gateway may talk to it again
+					if p.Type == refsn.CONNACK {
+						connecting = false
+					}
 				case w.st == stAsleep && !inFlush && !w.sleepReq:
 					// (a)/(c): nothing may be sent to a sleeping client
 					phase := "during-first-sleep"
@@ -135,6 +141,7 @@ func oracleC11(v *View, vd *Verdict) {
 					afterWake = false
 					if e.SN.Type == refsn.CONNECT {
 						pending = nil
+						connecting = w.st == stAsleep || w.st == stAwake
 					}
 				}
 			}
